@@ -5,7 +5,8 @@ category centre, exact ties, boundary hyper-parameters — under the property's
 standing guards; any exception or non-finite weight / activation / match value /
 cluster centre is a violation.  The hyper-parameters are also given in every
 representation validate_params accepts (integer / narrow / float32 array dtypes,
-strided, read-only and broadcast arrays, NumPy scalars).  Tie: the Lean checked kernels report `zerodiv`
+strided, read-only and broadcast arrays, NumPy scalars).  Whole histories are also run under the caller's strict
+numeric policies (np.errstate(divide='raise', invalid='raise'); RuntimeWarning promoted to an error).  Tie: the Lean checked kernels report `zerodiv`
 exactly where the implementation raises (kern ops, shared with C03)."""
 from __future__ import annotations
 
@@ -19,7 +20,8 @@ RULE = ("cases = (family, hyper-parameters incl. extreme-but-legal values, strea
         "the stream contains a duplicate row or a boundary hyper-parameter; distinct by hash of (family spec, stream, "
         "partition); plus (elementary class, one representation of its hyper-parameters that validate_params accepts: "
         "dtype x magnitude x memory layout of array hyper-parameters, or a scalar type; bare or inside a host; stream "
-        "with repeated rows; batching)")
+        "with repeated rows; batching); plus (elementary class, bare or inside a host, numeric policy of the calling process, "
+        "history fit / partial_fit batches -> rows placed on the reported category centres + repeated rows -> predict)")
 
 
 def finite_weights(est) -> bool:
@@ -179,6 +181,7 @@ def run(ctx):
     reset_histories(ctx)
     several_instances(ctx)
     param_representations(ctx)
+    strict_numeric_policy(ctx)
 
 
 def _bounds_owner(est):
@@ -675,3 +678,217 @@ def param_representations(ctx):
         cov.case(("repr", cls, tag, host, ctor, X.tolist(), parts, mode), True)
         if i % 40 == 0:
             cov.sample({"representation": tag, "constructor": ctor, "host": host})
+
+
+# ---------------------------------------------------------------- the caller's numeric policy
+# "Can be fitted, incrementally fitted and predicted without an exception" is a statement about calls made from ANY
+# process, also one that runs under a strict floating-point policy: np.seterr / np.errstate(divide='raise',
+# invalid='raise') (a common debugging and production-hardening setting) or `python -W error::RuntimeWarning` /
+# warnings.simplefilter('error', RuntimeWarning) (what pytest's `-W error` does).  Every other section of this check
+# calls the library under np.errstate(all='ignore') with warnings silenced, where an operation whose result is thrown
+# away (0/0 computed next to the guard that discards it, 1/0 in a branch np.where does not select) is invisible.  Under
+# a strict policy the same operation aborts training.  Here whole histories - fit or partial_fit batches with repeated
+# rows, then rows placed exactly on the category centres the model reports, then predict - run with the policy in force
+# around every call.  Underflow stays at NumPy's default ('ignore') under every policy: a product or an exponential
+# that underflows to zero is legitimate arithmetic, not an ill-defined operation.
+
+NUMPY_DEFAULT_ERRSTATE = dict(divide="warn", over="warn", under="ignore", invalid="warn")
+POLICIES = {
+    # name: (errstate, RuntimeWarning is an error)
+    "errstate-raise": (dict(NUMPY_DEFAULT_ERRSTATE, divide="raise", invalid="raise"), False),
+    "warnings-error": (dict(NUMPY_DEFAULT_ERRSTATE), True),
+    "errstate-raise+warnings-error": (dict(NUMPY_DEFAULT_ERRSTATE, divide="raise", invalid="raise"), True),
+    "lenient": (dict(divide="ignore", over="ignore", under="ignore", invalid="ignore"), False),   # what the other sections use
+}
+STRICT_HOSTS = ["bare", "SimpleARTMAP", "FusionART", "bare", "SimpleARTMAP", "FusionART", "DualVigilanceART", "TopoART", "ARTMAP"]
+
+
+def numeric_policy(name):
+    """the numeric policy `name` of the calling process (inside `quiet()`, whose blanket 'ignore' filter it refines)"""
+    import contextlib
+    import warnings
+
+    @contextlib.contextmanager
+    def cm():
+        errstate, werror = POLICIES[name]
+        with warnings.catch_warnings():
+            warnings.simplefilter("ignore")
+            if werror:
+                warnings.simplefilter("error", RuntimeWarning)
+            with np.errstate(**errstate):
+                yield
+    return cm()
+
+
+def _strict_spec(r, cls, d, host):
+    """spec of `cls` (raw dimension d) bare or inside `host`; None when the host does not take the class"""
+    sp = specs.elem_spec(r, cls, d)
+    if host == "bare":
+        return sp
+    if host == "SimpleARTMAP":
+        return {"cls": "SimpleARTMAP", "module_a": sp}
+    if host == "ARTMAP":
+        return {"cls": "ARTMAP", "module_a": sp, "module_b": specs.elem_spec(r, "FuzzyART", 1)}
+    if host == "FusionART":
+        return {"cls": "FusionART", "modules": [sp, specs.elem_spec(r, "FuzzyART", 1)], "gamma_values": [0.5, 0.5],
+                "channel_dims": [specs.width(cls, d), 2]}
+    if host == "DualVigilanceART":
+        if cls == "BayesianART":
+            return None
+        if sp["rho"] == 0.0:
+            sp["rho"] = 0.5
+        return {"cls": "DualVigilanceART", "base_module": sp, "rho_lower_bound": r.choice([x for x in [0.0, 0.125, 0.25, 0.375] if x < sp["rho"]])}
+    if host == "TopoART":
+        if cls not in specs.HAS_BETA:
+            return None
+        tau = r.randint(2, 8)
+        return {"cls": "TopoART", "base_module": sp, "beta_lower": r.choice([b for b in [0.0, 0.25, 0.5, 1.0] if b <= sp["beta"]]),
+                "tau": tau, "phi": r.randint(1, tau)}
+    raise KeyError(host)
+
+
+def _strict_inner(est, host):
+    return {"bare": lambda: est, "SimpleARTMAP": lambda: est.module_a, "ARTMAP": lambda: est.module_a,
+            "FusionART": lambda: est.modules[0], "DualVigilanceART": lambda: est.base_module, "TopoART": lambda: est.base_module}[host]()
+
+
+def _drive_strict(spec, cls, d, host, policy, X1, y1, parts, pick2, y2pick, mode, eps):
+    """one whole history under `policy`: construct; fit(X1) or partial_fit over the batches `parts` of X1; read the
+    category centres the model reports and place samples exactly on them (where the class's own validate_data accepts
+    such a sample), followed by the rows `pick2` of X1 again; train on those (partial_fit); predict everything; read the
+    centres.  Returns (None | (signature suffix, what), info)"""
+    from ..impl import time_limit
+    info = {"X2": None, "y2": None, "on_centre": 0, "stage": "__init__"}
+    fus = (lambda S: np.hstack([S, gen.cc(S[:, :1])])) if host == "FusionART" else (lambda S: S)
+    sup = host in ("SimpleARTMAP", "ARTMAP")
+    kw = dict(match_tracking=mode, epsilon=eps)
+    try:
+        with quiet(), time_limit(90.0), numeric_policy(policy):
+            est = make(spec)
+            inner = _strict_inner(est, host)
+            if cls == "FuzzyART":       # documented workflow: prepare_data fixes the column bounds get_cluster_centers needs ([0,1] = identity)
+                inner.prepare_data(np.array([[0.0] * d, [1.0] * d]))
+            spy = ActivationSpy(est)
+            if parts is None:
+                info["stage"] = "fit"
+                est.fit(*((fus(X1), y1) if sup else (fus(X1),)), **kw)
+            else:
+                info["stage"] = "partial_fit"
+                j = 0
+                for p in parts:
+                    est.partial_fit(*((fus(X1[j:j + p]), y1[j:j + p]) if sup else (fus(X1[j:j + p]),)), **kw)
+                    j += p
+            if not finite_weights(est):
+                return (":non-finite-weight", f"NaN/inf in the learned weights after {info['stage']}"), info
+            # ---- samples exactly on the reported category centres
+            info["stage"] = "get_cluster_centers"
+            cen = [np.asarray(c, dtype=float).ravel() for c in inner.get_cluster_centers()][:3]
+            on = []
+            for c in cen:
+                s_ = np.concatenate([c, 1.0 - c]) if cls == "FuzzyART" else c
+                if len(s_) != X1.shape[1] or not np.all(np.isfinite(s_)) or not 0.0 <= s_[0] <= 1.0:
+                    continue
+                if cls == "ART1" and not s_.any():
+                    continue                      # the statement's standing guard: ART1 rows are non-zero
+                try:
+                    inner.validate_data(s_.reshape(1, -1))
+                except Exception:
+                    continue                      # e.g. a non-binary ART1 centre: not a valid sample, outside the statement
+                on.append(s_)
+            X2 = np.vstack(on + [X1[k] for k in pick2])
+            y2 = y1[[y2pick[k % len(y2pick)] for k in range(len(on))] + list(pick2)] if sup else None
+            info.update(X2=X2, y2=y2, on_centre=len(on))
+            info["stage"] = "partial_fit (rows on the reported centres + repeated rows)"
+            est.partial_fit(*((fus(X2), y2) if sup else (fus(X2),)), **kw)
+            if not finite_weights(est):
+                return (":non-finite-weight", "NaN/inf in the learned weights after training on rows placed on the category centres"), info
+            info["stage"] = "predict"
+            est.predict(fus(np.vstack([X1, X2])))
+            info["stage"] = "get_cluster_centers"
+            cen = inner.get_cluster_centers()
+            if not all(np.all(np.isfinite(np.asarray(c, dtype=float))) for c in cen):
+                return (":non-finite-centre", "NaN/inf in get_cluster_centers()"), info
+        if spy.bad:
+            return (f":non-finite-activation-or-match:{spy.bad[0][0]}", f"non-finite value returned during training or prediction: {spy.bad[:2]}"), info
+        return None, info
+    except AssertionError as e:
+        if info["stage"] == "__init__":
+            return ("rejected", None), info
+        return (f".{info['stage'].split(' (')[0]}:{exc_enum(e)}", f"{info['stage']} raised {e!r}"), info
+    except Exception as e:
+        kind = "runtime-warning" if isinstance(e, RuntimeWarning) else exc_enum(e)
+        return (f".{info['stage'].split(' (')[0]}:{kind}", f"{info['stage']} raised {e!r}"), info
+
+
+def strict_numeric_policy(ctx):
+    """whole histories under the calling process's strict numeric policy (see the comment above): every elementary
+    class bare and inside SimpleARTMAP / FusionART / DualVigilanceART / TopoART / ARTMAP; fit or partial_fit batches on a
+    stream with repeated rows, then samples placed exactly on the reported category centres, then predict - no
+    exception, finite weights / activations / match values / centres.  A failure is re-run under the lenient policy of
+    the other sections: the signature says whether the policy is what makes the difference."""
+    from types import SimpleNamespace
+    cov = ctx.cov
+    pol_names = [p for p in POLICIES if p != "lenient"]
+    for i in range(ctx.scale(288, 4320)):
+        r = gen.rng_for(ctx.seed, "C04-strict", i)
+        cls = specs.ELEM[i % len(specs.ELEM)]
+        host = STRICT_HOSTS[(i // len(specs.ELEM)) % len(STRICT_HOSTS)]
+        policy = pol_names[(i // (len(specs.ELEM) * len(STRICT_HOSTS))) % len(pol_names)] if i < 3 * len(specs.ELEM) * len(STRICT_HOSTS) else r.choice(pol_names)
+        d = r.randint(1, 3)
+        spec = _strict_spec(r, cls, d, host)
+        if spec is None:
+            host = "bare"
+            spec = _strict_spec(r, cls, d, host)
+        boundary = r.random() < 0.25
+        if boundary:
+            extreme(r, SimpleNamespace(spec=spec))
+        n = r.randint(2, 10)
+        X1 = specs.elem_data(r, cls, n, d, style=r.choice(["dups", "coarse", "corners", "blobs", "uniform"]) if cls != "ART1" else None,
+                             floats=cls != "ART1" and r.random() < 0.2)
+        idx = list(range(n)) + [r.randrange(n) for _ in range(r.randint(1, n))]        # repeated rows
+        r.shuffle(idx)
+        X1 = X1[idx]
+        n = len(X1)
+        if host == "ARTMAP":
+            y1 = specs.elem_data(r, "FuzzyART", n, 1, style=r.choice(["coarse", "dups"]))
+        else:
+            y1 = gen.labels(r, n, r.randint(1, 3))
+        parts = gen.compositions(r, n) if r.random() < 0.5 else None
+        pick2 = [r.randrange(n) for _ in range(r.randint(1, 4))]
+        y2pick = [r.randrange(n) for _ in range(3)]
+        mode, eps = r.choice(MODES), r.choice([0.0, 2.0 ** -20, 2.0 ** -10])
+        bad, info = _drive_strict(spec, cls, d, host, policy, X1, y1, parts, pick2, y2pick, mode, eps)
+        if bad is not None and bad[0] == "rejected":
+            cov.hit(f"strict-policy:rejected-by-validate_params:{cls}")
+            continue
+        where = cls if host == "bare" else f"{host}/{cls}"
+        if bad is not None:
+            lenient, _ = _drive_strict(spec, cls, d, host, "lenient", X1, y1, parts, pick2, y2pick, mode, eps)
+            rep = {"spec": spec, "host": host, "numeric_policy": policy,
+                   "numeric_policy_means": {"np.errstate": POLICIES[policy][0], "warnings.simplefilter('error', RuntimeWarning)": POLICIES[policy][1]},
+                   "X1": X1.tolist(), "y1": y1.tolist() if host in ("SimpleARTMAP", "ARTMAP") else None,
+                   "X2": None if info["X2"] is None else info["X2"].tolist(), "y2": None if info["y2"] is None else info["y2"].tolist(),
+                   "rows_of_X2_on_a_reported_centre": info["on_centre"], "match_tracking": mode, "epsilon": eps,
+                   "second_channel_of_FusionART": "FuzzyART on complement-coded column 0 of X1 / X2" if host == "FusionART" else None,
+                   "calls": ("fit(X1)" if parts is None else f"partial_fit on consecutive batches of X1 of sizes {parts}")
+                   + ", partial_fit(X2), predict(vstack(X1, X2)), get_cluster_centers()",
+                   "same_history_under_np.errstate(all='ignore')": "passes" if lenient is None else f"fails too: {lenient[1]}"}
+            if lenient is None:
+                ctx.issue("violation", f"{where}[{policy}]{bad[0]}",
+                          f"{bad[1]} on valid data when the calling process runs under the numeric policy {policy} "
+                          "(the same history passes with NumPy's floating-point errors ignored): an ill-defined operation (0/0, x/0, "
+                          "inf-inf ...) is executed during training / prediction", rep)
+            else:
+                ctx.issue("violation", f"{where}{lenient[0]}", f"{lenient[1]} on data accepted by validate_data (under any numeric policy)", rep)
+        else:
+            cov.hit(f"strict-policy:{policy}:{host}:ok")
+            cov.hit(f"strict-policy:trained-ok:{cls}")
+        cov.hit("strict-policy:history:" + ("fit" if parts is None else "partial_fit-batches") + "+centre-rows+predict")
+        if info["on_centre"]:
+            cov.hit(f"strict-policy:sample-on-reported-centre:{cls}")
+        if boundary:
+            cov.hit("strict-policy:extreme-hyperparameters")
+        cov.case(("strict", cls, host, policy, spec, X1.tolist(), parts, pick2, mode, eps), True)
+        if i % 60 == 0:
+            cov.sample({"numeric_policy": policy, "host": host, "cls": cls, "history": "fit" if parts is None else f"partial_fit {parts}",
+                        "rows_on_reported_centres": info["on_centre"]})
